@@ -40,21 +40,31 @@ def main():
                 dst = "internal" if "package internal" in open(d).read() else "."
                 shutil.copy(d, os.path.join(wt, dst, os.path.basename(d)))
             names = " ".join(sorted({"./internal/" if "package internal" in open(d).read() else "." for d in demos}))
-            c0, o0 = sh(f"go test -vet=off -count=1 -run 'ZZ|Demo|zz' {names}", cwd=wt)
+            tags = "-tags verif" if any("go:build verif" in open(d).read() for d in demos) else ""
+            c0, o0 = sh(f"go test {tags} -vet=off -count=1 -run 'ZZ|Demo|zz' {names}", cwd=wt)
             result["confirmed"]["demo_passes_without_change"] = c0 == 0
             ca, oa = sh(f"git apply {os.path.abspath(patch)}", cwd=wt)
             assert ca == 0, oa
             cb, ob = sh("go build ./...", cwd=wt)
             result["confirmed"]["builds_with_change"] = cb == 0
-            c1, o1 = sh(f"go test -vet=off -count=1 -run 'ZZ|Demo|zz' {names}", cwd=wt)
+            c1, o1 = sh(f"go test {tags} -vet=off -count=1 -run 'ZZ|Demo|zz' {names}", cwd=wt)
             result["confirmed"]["demo_fails_with_change"] = c1 != 0
             for d in demos:  # the existing suite, without the demo
                 dst = "internal" if "package internal" in open(d).read() else "."
                 os.remove(os.path.join(wt, dst, os.path.basename(d)))
-            c2, o2 = sh("go test -vet=off -count=1 -timeout 20m ./...", cwd=wt)
-            result["confirmed"]["suite_passes_with_change"] = c2 == 0
-            if c2 != 0:
-                result["confirmed"]["suite_output_tail"] = o2[-1500:]
+            # the repository's suite binds fixed ports and is flaky when several copies run at once (as they do
+            # while sub-agents work): up to three attempts, each with a 6 minute limit
+            attempts = []
+            for _ in range(3):
+                c2, o2 = sh("go test -vet=off -count=1 -timeout 6m ./...", cwd=wt)
+                attempts.append(c2 == 0)
+                if c2 == 0:
+                    break
+            result["confirmed"]["suite_passes_with_change"] = any(attempts)
+            result["confirmed"]["suite_attempts"] = attempts
+            if not any(attempts):
+                fails = [l for l in o2.split("\n") if l.startswith("--- FAIL") or l.startswith("panic:")]
+                result["confirmed"]["suite_failures"] = fails[:8]
         finally:
             sh(f"git -C /repo worktree remove --force {wt}")
     # run the checks against the change
